@@ -35,7 +35,7 @@ TraceInit ==
     /\ where = [p \in Payloads |-> NoWhere]
     /\ xobs = [x \in DOMAIN Execs |-> NoX]
     /\ segopen = [f \in {"asyncio", "trio", "threading"} |-> 0]
-    /\ marks = [aborted |-> FALSE, quiescent |-> FALSE, timeouts |-> 0, blocked |-> FALSE, coroafterblock |-> 0, failedatq |-> FALSE, lostatq |-> FALSE,
+    /\ marks = [aborted |-> FALSE, straystart |-> FALSE, quiescent |-> FALSE, timeouts |-> 0, blocked |-> FALSE, coroafterblock |-> 0, failedatq |-> FALSE, lostatq |-> FALSE,
                 stuckatq |-> FALSE, exfail |-> FALSE, execstuck |-> FALSE, adoptstuck |-> FALSE, shutstuck |-> FALSE, restartfail |-> FALSE, stall |-> FALSE]
 
 Step_ == l <= Len(Tr.events) /\ l' = l + 1 /\ UNCHANGED tid
@@ -63,7 +63,9 @@ TStart == /\ Ev.e = "Start"
           /\ starts' = [starts EXCEPT ![Ev.p] = @ + 1]
           /\ where' = [where EXCEPT ![Ev.p] = [tidc |-> Ev.tidc, loop |-> Ev.loop, argsok |-> Ev.argsok]]
           /\ h' = [h EXCEPT !.stepafter = @ \/ (Coroutine(Ev.p) /\ After)]
-          /\ UNCHANGED <<phase, guard, endhow, cleanleft, adoptret, sigint, shut, result, xst, xobs, segopen, marks>>
+          /\ UNCHANGED <<phase, guard, endhow, cleanleft, adoptret, sigint, shut, result, xst, xobs, segopen>>
+          \* a payload nobody gave to THIS runtime (it was never adopted here) is started
+          /\ marks' = [marks EXCEPT !.straystart = @ \/ pst[Ev.p] = "new"]
           /\ nc' = (nc \/ ~(pst[Ev.p] \in {"submitting", "submitted"} /\ (phase[1] \in {"running", "closing", "closed"} \/ (~Coroutine(Ev.p) /\ phase[1] = "ended" /\ Ev.p \notin Pre /\ Triggered))))
 TStep == /\ Ev.e = "Step"
          /\ h' = [h EXCEPT !.stepafter = @ \/ (Coroutine(Ev.p) /\ After)]
@@ -189,6 +191,9 @@ TraceSpec == TraceInit /\ [][TraceNext]_tvars
 Started(p) == starts[p] > 0
 \* C03/C11: the runner of the requested flavour - one loop, one thread per coroutine flavour,
 \* thread payloads elsewhere
+\* C03 / C12: a runtime starts what was given to it, nothing else (e.g. not what another
+\* ServiceRunner instance has queued)
+NoStrayStart == ~marks.straystart
 RightFlavour == \A p \in Payloads : Started(p) =>
     CASE Flav[p] = "asyncio" -> where[p].tidc = "main" /\ where[p].loop = 1
       [] Flav[p] = "trio" -> where[p].tidc = "trio" /\ where[p].loop = 1
@@ -231,6 +236,7 @@ Monitor ==
     /\ Mon("AdoptReturnsNone", AdoptReturnsNone)
     /\ Mon("ExactlyOnceObserved", ExactlyOnceObserved)
     /\ Mon("RightFlavour", RightFlavour)
+    /\ Mon("NoStrayStart", NoStrayStart)
     /\ Mon("ArgsExact", ArgsExact)
     /\ Mon("ExecOnce", ExecOnce)
     /\ Mon("ExecArgsExact", ExecArgsExact)
